@@ -12,4 +12,8 @@ fref = normalise.build_function_reference(os.environ.get("VERIF_REPO", "/repo"))
 with open(normalise.FUNC_REF_FILE, "w") as fh:
     json.dump(fref, fh, indent=0)
 print("functions:", len(fref))
+cref = normalise.build_constant_reference(os.environ.get("VERIF_REPO", "/repo"))
+with open(normalise.CONST_REF_FILE, "w") as fh:
+    json.dump(cref, fh, indent=0, sort_keys=True)
+print("module constants:", sum(len(v) for v in cref.values()))
 print("functions with locals:", len(ref), "locals:", sum(len(v) for v in ref.values()))
